@@ -146,6 +146,7 @@ type State struct {
 	refsMaybe []maybeRef
 	callRes   map[ssa.CallInstruction][]smt.T // results of the calls executed on this path (latest execution)
 	loopEntry map[*ssa.BasicBlock]*State      // state in which each loop (by header) was entered on this path: atloop(e)
+	callArgs  map[ssa.CallInstruction][]smt.T // explicit arguments (receiver excluded) of the calls executed on this path: callarg(F, n, k)
 }
 
 func (s *State) clone() *State {
@@ -165,6 +166,12 @@ func (s *State) clone() *State {
 		n.callRes = make(map[ssa.CallInstruction][]smt.T, len(s.callRes))
 		for k, v := range s.callRes {
 			n.callRes[k] = v
+		}
+	}
+	if s.callArgs != nil {
+		n.callArgs = make(map[ssa.CallInstruction][]smt.T, len(s.callArgs))
+		for k, v := range s.callArgs {
+			n.callArgs[k] = v
 		}
 	}
 	if s.loopEntry != nil {
@@ -746,6 +753,7 @@ func (x *Exec) havocLoop(fr *frame, st *State, li *load.LoopInfo) *State {
 		for _, in := range b.Instrs {
 			if ci, ok := in.(ssa.CallInstruction); ok {
 				delete(st.callRes, ci)
+				delete(st.callArgs, ci)
 			}
 		}
 	}
